@@ -78,6 +78,40 @@ func (x *exec) call(fr *frame, s *State, cc *ssa.CallCommon, instr ssa.Value, po
 	if fv.Clo != nil {
 		return x.staticCall(fr, s, fv.Clo.Fn, fv.Clo.Bind, args, sig, resT, pos)
 	}
+	if strings.HasPrefix(fv.Tag, "param:") && x.con != nil && x.con.Callbacks != nil {
+		// call of a function-typed parameter: the contract states what must hold whenever it is invoked
+		name := strings.TrimPrefix(fv.Tag, "param:")
+		if cb := x.con.Callbacks[name]; cb != nil {
+			if len(cb.Params) != len(args) {
+				fail("callback %s names %d parameters, call has %d", name, len(cb.Params), len(args))
+			}
+			env := x.frameEnv(fr, s, pos)
+			for i, pn := range cb.Params {
+				env.vars[pn] = args[i]
+			}
+			// parameters of the function under proof by their contract names
+			pnames := x.con.Params
+			if x.con.Recv != "" {
+				pnames = append([]string{x.con.Recv}, pnames...)
+			}
+			for f := fr; f != nil; f = f.parent {
+				if f.top {
+					for i, n := range pnames {
+						if _, taken := env.vars[n]; !taken && i < len(f.params) {
+							env.vars[n] = f.params[i]
+						}
+					}
+				}
+			}
+			for i, r := range cb.Requires {
+				label := r.Label
+				if label == "" {
+					label = fmt.Sprint(i + 1)
+				}
+				x.oblig(fr, s, "callback."+name, label, pos, x.evalBool(r.E, env), r.Props)
+			}
+		}
+	}
 	return x.unknownCall(fr, s, "dynamic call "+cc.Value.Name(), args, resT, pos)
 }
 
@@ -631,6 +665,9 @@ func (x *exec) copyOp(fr *frame, s *State, cc *ssa.CallCommon, args []*Val) *Val
 func (x *exec) model(fr *frame, s *State, key string, args []*Val, resT types.Type, pos token.Pos) (*Val, bool) {
 	switch key {
 	case "bytes.Equal":
+		if x.p.Contracts.ByKey["bytes.Equal"] != nil {
+			return nil, false // a contract (assumed, with a quantified postcondition) takes precedence
+		}
 		x.note("assumed: bytes.Equal is a pure function of the two byte sequences")
 		x.c.Fun("bytes-eq", []string{"Slice", "Slice", "(Array Int (Array " + x.c.I() + " " + x.c.SortOf(types.Typ[types.Uint8]) + "))"}, "Bool")
 		name, sortN := x.elemArr(types.Typ[types.Uint8])
